@@ -155,6 +155,13 @@ def summarize(name, lines, meta, res, t_run, cut_ids=None):
             last_extra = pr["extra"] or last_extra
         if r["impl"].get("crash"):
             kinds["crash"] += 1
+            # the call that killed the process printed no result line: its flags come from the harness's
+            # signal handler (a history can leave the preconditions in its very last call)
+            af = r["impl"].get("abort_flags")
+            if af:
+                last_extra = dict(last_extra, **af)
+                if d4_idx is None and af.get("d4") == "1":
+                    d4_idx = r["impl"]["abort_order"][0]
         if nt:
             nontrivial.add(re.sub(r"@[\d,]*", "", body))
         for k in ("disc", "d4", "loop", "esc"):
